@@ -103,8 +103,12 @@ def r3(ctx):
     ctx.check('handle_inner|require_nts-edge', len(starts) == 1, 'require_nts Some edge not found', sample=len(starts))
     time_blocks = {s.bb for s in b.calls(r'NtpPacket::(nts_)?timestamp_response$')}
     ctx.check('handle_inner|time-builders', len(time_blocks) == 2, 'expected 2 time response builders', sample=len(time_blocks))
+    # the NTS flag of the request: the bool local handed over as HandleInnerData.nts (found through that use, not by name)
+    lit = one(b.aggregates(r'server::HandleInnerData$'), 'HandleInnerData construction')
+    nts_l = root_local(b, lit.data['rv']['ops'][lit.data['rv']['fields'].index('nts')])
+    nts_name = b.locals[nts_l]['name'] if nts_l is not None else '\0'
     for (s0, d0) in starts:
-        ctx.check('handle_inner|require_nts|only-for-non-nts', b.must_pass(s0, lambda f: f.kind == 'bool' and not f.pol and tstr(f.term).startswith('nts')),
+        ctx.check('handle_inner|require_nts|only-for-non-nts', b.must_pass(s0, lambda f: f.kind == 'bool' and not f.pol and re.match(r'^%s\b' % re.escape(nts_name), tstr(f.term)) is not None),
                   'require_nts consulted although the request is NTS', sample=b.guard_strings(s0)[-3:])
         seen = b.var_reach(al, SR, start_bb=d0)
         hit = sorted(x for x in time_blocks if x in seen)
